@@ -66,24 +66,16 @@ def run(prog: Program, res: Result, tier: str) -> None:
         pad_arg = next((k.value for k in padc[0].keywords if k.arg == "pad_width"), padc[0].args[1] if len(padc[0].args) > 1 else None)
     ex = frf.expand(pad_arg, frf.cfg.node_for(padc[0])) if pad_arg is not None else None
 
+    from ..normalform import canon as _canon
+
     def odd_branch(test: ast.AST):
         """-> True if the test holds for odd windows, False if for even windows, None if it is not a parity test of `window`."""
-        t = test
-        neg = False
-        while isinstance(t, ast.UnaryOp) and isinstance(t.op, ast.Not):
-            t, neg = t.operand, not neg
-
-        def parity_expr(e):
-            return (isinstance(e, ast.BinOp) and isinstance(e.op, ast.Mod) and norm(e.left) == "window" and norm(e.right) == "2") or \
-                (isinstance(e, ast.BinOp) and isinstance(e.op, ast.BitAnd) and {norm(e.left), norm(e.right)} == {"window", "1"})
-        if parity_expr(t):
-            return not neg
-        if isinstance(t, ast.Compare) and len(t.ops) == 1 and parity_expr(t.left) and norm(t.comparators[0]) in ("0", "1"):
-            is_one = norm(t.comparators[0]) == "1"
-            if isinstance(t.ops[0], ast.Eq):
-                return (is_one) != neg
-            if isinstance(t.ops[0], ast.NotEq):
-                return (not is_one) != neg
+        c = _canon(test)
+        par = ("Mod(window, 2)", "BitAnd(1, window)", "BitAnd(window, 1)")
+        if c in par or c in {f"cmp[Eq](1, {p})" for p in par} or c in {f"cmp[NotEq](0, {p})" for p in par}:
+            return True
+        if c in {f"not ({p})" for p in par} or c in {f"cmp[Eq](0, {p})" for p in par} or c in {f"cmp[NotEq](1, {p})" for p in par}:
+            return False
         return None
 
     if not (isinstance(ex, ast.IfExp) and odd_branch(ex.test) is not None):
@@ -99,15 +91,8 @@ def run(prog: Program, res: Result, tier: str) -> None:
                 break
 
             def ev(e):
-                # window // 2 == k for window in {2k, 2k+1}
-                class T(ast.NodeTransformer):
-                    def visit_BinOp(self, n):  # noqa: N802
-                        self.generic_visit(n)
-                        if isinstance(n.op, ast.FloorDiv) and norm(n.left) == "window" and norm(n.right) == "2":
-                            return ast.Name(id="k", ctx=ast.Load())
-                        return n
-                from ..dataflow import clone
-                return PolyEnv({"window": w}).poly(ast.fix_missing_locations(T().visit(clone(e))))
+                # window // 2 == k for window in {2k, 2k+1} (canonical form: divmod(window, 2)[0] is window // 2)
+                return PolyEnv().poly(e).subst("FloorDiv(window, 2)", k).subst("window", w)
             tot = ev(branch.elts[0]) + ev(branch.elts[1])
             detail.append(f"w={w.canon()}: pad total {tot.canon()}")
             if tot != w - Poly.const(1):
